@@ -71,7 +71,7 @@ func RunBoundary(p *BProg) (evs []Ev) {
 			"len": len(f.payload), "lk": f.Lk, "min": !f.NonMin, "code": -1, "utf8": true,
 			"arr": "full", "h2": true, "hdrOK": true, "pgot": len(f.payload), "plain": f.Plain, "comp": f.Comp != ""}
 	}
-	evs = append(evs, Ev{"e": "Reset", "tid": p.ID,
+	evs = append(evs, Ev{"e": "Reset", "tid": p.ID, "raw": false,
 		"cfg": Ev{"role": p.Side, "pmce": false, "limit": 0, "hmode": "default", "herrAt": 0, "policy": "per_message",
 			"rbuf": p.RBuf, "hsize": p.HSize, "k": p.K, "chunk": p.Chunk, "path": p.Path, "streamlen": len(stream)},
 		"fr": frs})
